@@ -370,7 +370,8 @@ class Gen:
         inp_a = ("f0",) if use_static else rng.choice([(), ("plan.py",)])
         out_a = rng.choice([("f1",), ("f1", "f2")])
         env_a = rng.choice([(), ("E0",)])
-        spec_a = (inp_a, env_a, out_a, (), "DEFAULT")
+        vol_a = ("f5",) if rng.random() < 0.45 else ()
+        spec_a = (inp_a, env_a, out_a, vol_a, "DEFAULT")
         if await self.record(("define_step", ("step", plan), a, *spec_a)) != "ok":
             return
         self.defs[a] = spec_a
@@ -423,11 +424,24 @@ class Gen:
             outs = self.outputs_of(a)
             hs = tuple((p, rng.choice([None, self.newhash()])) for p in outs if rng.random() < 0.5)
             await self.record(("exec_end", a, (), "FAILED", hs, False, rng.random() < 0.3))
-        # the creator declares its steps again
-        if rng.random() < 0.8:
+        # the creator declares its steps again: identically, with one more output, or with the
+        # volatile output renamed while a new step consumes the old path (which is then a detached,
+        # creator-less former volatile output that is merely supplied as an input)
+        r = rng.random()
+        if vol_a and r < 0.4:
+            renamed = (inp_a, env_a, out_a, ("f6",), "DEFAULT")
+            if await self.record(("define_step", ("step", plan), a, *renamed)) == "ok":
+                self.defs[a] = renamed
+            c = rng.choice([x for x in STEPS if x not in (a, b)])
+            spec_c = (vol_a, (), ("f7",), (), "DEFAULT")
+            if await self.record(("define_step", ("step", plan), c, *spec_c)) == "ok":
+                self.defs[c] = spec_c
+            if rng.random() < 0.5:
+                await self.record(("amend_step", plan, vol_a, (), (), ()))
+        elif r < 0.85:
             await self.record(("define_step", ("step", plan), a, *spec_a))
         else:
-            changed = (inp_a, env_a, out_a + ("f4",), (), "DEFAULT")
+            changed = (inp_a, env_a, out_a + ("f4",), vol_a, "DEFAULT")
             if await self.record(("define_step", ("step", plan), a, *changed)) == "ok":
                 self.defs[a] = changed
         if with_b and rng.random() < 0.7:
